@@ -172,6 +172,9 @@ def run(chk):
     chk.rule_prefix = "C04."
     chk.rule_filter = lambda r: r.startswith(("R1", "R5", "R2", "R3", "R4", "R6"))
     C04.run_config(chk, "default")
+    # ... also in the pre-C11 fallback build of atomic.h, where an operation written without the atomic_* macros
+    # (`flags |= bit`) is a plain load / or / store that a nested interrupt's complete send falls into
+    C04.run_config(chk, "noatomics")
     chk.rule_prefix = ""
     chk.rule_filter = None
     # console_putchar: put before wake (K7 of C15)
